@@ -177,6 +177,7 @@ type Frame struct {
 }
 
 type deferred struct {
+	builtin *ssa.Builtin // deferred builtin call (close): executed through the builtin path with the recorded call
 	fn    *ssa.Function
 	args  []Val
 	binds []Val
